@@ -1100,7 +1100,7 @@ fn main() {
     }
     if args.case.is_none() {
         let mut rng = Rng::new(args.seed);
-        let n = args.n.unwrap_or(if args.thorough() { 12000 } else { 1500 });
+        let n = args.n.unwrap_or(if args.thorough() { 6000 } else { 1500 });
         for i in 0..n {
             let mut r = rng.fork();
             let c = gen_case(&mut r, args.thorough());
